@@ -32,6 +32,10 @@ CHECKS = {
  'C09': dict(sec='3/C09', tech='TLC on the pool sub-machine of RankGraph.tla (all shuffles and worker interleavings) + every schedule executed by ScheduledPool under the real mixed_rank_graph + fresh-process CLI runs with the real pathos pool',
              text='ScheduleIndependent/ResultsComplete are model-checked over every shuffle permutation and Take/Finish interleaving (amap and uimap variants); each TLC schedule is replayed into the real code and compared bit for bit with the reference; the real CLI is run in fresh interpreters with different pool sizes, repetitions and hash seeds over several flag sets and the outputs compared as sorted row sets.',
              note='pool sizes in CLI runs: quick {1,3}, thorough {1,2,4,8,16}; OS scheduling of the real pool is sampled, not enumerated'),
+
+ 'C05': dict(sec='3/C05', tech='TLC enumeration of Scoring.tla (dispatch table + exact scorer results per column pair) + replay of every frame into the real mixed_rank_graph under rotating heuristic names; documented names extracted from the repository at check time',
+             text='Scoring.tla fixes for every heuristic name the scorer kind, the category coding (rank in the sorted value set), the conditioning side (label) and the exact result (log-vectors / rationals); TLC enumerates every frame of a bounded space and each is scored by the real mixed_rank_graph with adversarial string renderings; DocumentedNotConstant is checked on the model with the documented names and on the real code with a probe frame.',
+             note='frames: label + 2-3 features, 3-5 rows, <=3 values; Pearson/AMI library formulas evaluated by the harness on independent codes'),
 }
 
 checks = []
